@@ -49,7 +49,7 @@ Definition cs_of_list (l : list clause) : clause_set :=
 Notation live := (clause_set * nat)%type.
 
 Record cache := mkCache {
-  clauses : clause_set;          (* ClauseCache.clauses *)
+  cclauses : clause_set;          (* ClauseCache.clauses *)
   edit_add : list clause;        (* clauses to add to get back to the parent state *)
   edit_rmv : list clause;        (* clauses to remove to get back to the parent state *)
   total : option nat;            (* total_features: Option<u32> *)
@@ -58,7 +58,7 @@ Record cache := mkCache {
 }.
 
 Definition set_old (c : cache) (o : option live) : cache :=
-  mkCache (clauses c) (edit_add c) (edit_rmv c) (total c) (old_total c) o.
+  mkCache (cclauses c) (edit_add c) (edit_rmv c) (total c) (old_total c) o.
 
 (* ClauseCache::default() + initialize *)
 Definition initialize (cs : clause_set) (n : nat) : cache :=
@@ -89,7 +89,7 @@ Variable loadable : clause_set -> nat -> bool.
 
 (* fn setup_for_edit(&mut self, add, rmv, total) -> bool ; (self', result) *)
 Definition setup_for_edit (c : cache) (add rmv : list clause) (tot : option nat) : cache * bool :=
-  match remove_all rmv (clauses c) with
+  match remove_all rmv (cclauses c) with
   | None => (c, false)                      (* self.clauses = old_set_clauses; return false *)
   | Some s1 =>
     let '(s2, added) := insert_all add s1 in
@@ -100,26 +100,26 @@ Definition setup_for_edit (c : cache) (add rmv : list clause) (tot : option nat)
 Definition setup_for_undo (c : cache) : cache * bool :=
   setup_for_edit c (edit_rmv c) (edit_add c) (old_total c).
 
-Inductive res := RTrue | RFalse | RPanic.
+Inductive cc_res := UTrue | UFalse | UPanic.
 
 (* apply_edits_and_replace: edit the set, write it with the new total to a temporary CNF,
    compile + load it into old_state.  A panic while loading leaves the edited cache behind. *)
-Definition apply_edits_and_replace (c : cache) (add rmv : list clause) (tot : nat) : cache * res :=
+Definition apply_edits_and_replace (c : cache) (add rmv : list clause) (tot : nat) : cache * cc_res :=
   match total c with
-  | None => (c, RFalse)
+  | None => (c, UFalse)
   | Some _ =>
     let '(c1, ok) := setup_for_edit c add rmv (Some tot) in
     if ok then
       (* write_cnf_to_file(&self.clauses, self.total_features.unwrap(), temp); the unwrap
          cannot fail: setup_for_edit has just stored Some tot *)
-      if loadable (clauses c1) tot then (set_old c1 (Some (clauses c1, tot)), RTrue)
-      else (c1, RPanic)
-    else (c1, RFalse)
+      if loadable (cclauses c1) tot then (set_old c1 (Some (cclauses c1, tot)), UTrue)
+      else (c1, UPanic)
+    else (c1, UFalse)
   end.
 
 (* fn contains_conflicting_clauses(&mut self, total_features) *)
 Definition contains_conflicting_clauses (c : cache) (t : nat) : bool :=
-  uses_above t (clauses c).
+  uses_above t (cclauses c).
 
 (* ---- Ddnnf level ---- *)
 Record dstate := mkD {
@@ -138,15 +138,15 @@ Definition do_swap (d : dstate) : dstate :=
   end.
 
 (* update_cached_state(Either::Left((add, rmv)), Some(total)) *)
-Definition cc_update (d : dstate) (add rmv : list clause) (tot : nat) : dstate * res :=
+Definition cc_update (d : dstate) (add rmv : list clause) (tot : nat) : dstate * cc_res :=
   match cached d with
   | Some c =>
     let '(c', r) := apply_edits_and_replace c add rmv tot in
     match r with
-    | RTrue => (do_swap (mkD (live_of d) (Some c')), RTrue)
+    | UTrue => (do_swap (mkD (live_of d) (Some c')), UTrue)
     | _ => (mkD (live_of d) (Some c'), r)
     end
-  | None => (d, RFalse)
+  | None => (d, UFalse)
   end.
 
 (* undo_on_cached_state: the result of setup_for_undo is ignored *)
@@ -157,7 +157,7 @@ Definition cc_undo (d : dstate) : dstate * bool :=
   end.
 
 (* ---- stream level (handle_stream_msg) ---- *)
-Inductive err :=
+Inductive cc_err :=
 | E3_boundary      (* "E3 error: not all parameters are within the boundary of .." *)
 | E4_total         (* "E4 error: \"t\" must be set to a single positive number" *)
 | E5_conflict      (* "E5 error: at least one clause is in conflict with the feature reduction.." *)
@@ -166,9 +166,9 @@ Inductive err :=
 | E5_no_undo       (* "E5 error: could not perform undo; there does not exist any cached state1" *)
 | E5_no_save.      (* "E5 error: cannot save as CNF because clauses are not available" *)
 
-Inductive answer :=
+Inductive cc_answer :=
 | AOk                              (* "" *)
-| AErr (e : err)
+| AErr (e : cc_err)
 | ASaved (text : list string)      (* "" and the lines written to the file *)
 | APanic.
 
@@ -177,21 +177,21 @@ Definition live_n (d : dstate) : nat := snd (live_of d).
 
 (* the part of clause-update after the `t` pre-pass: add / rmv are parsed against the boundary
    tot (get_numbers -> check_boundary), then update_cached_state + swap *)
-Definition cu_continue (d : dstate) (tot : nat) (add rmv : list (list Z)) : dstate * answer :=
+Definition cu_continue (d : dstate) (tot : nat) (add rmv : list (list Z)) : dstate * cc_answer :=
   if uses_above tot (add ++ rmv) then (d, AErr E3_boundary)
   else match cached d with            (* can_save_state *)
        | None => (d, AErr E5_no_clauses)
        | Some _ =>
          let '(d', r) := cc_update d (map mk_clause add) (map mk_clause rmv) tot in
          match r with
-         | RTrue => (d', AOk)
-         | RFalse => (d', AErr E5_update)
-         | RPanic => (d', APanic)
+         | UTrue => (d', AOk)
+         | UFalse => (d', AErr E5_update)
+         | UPanic => (d', APanic)
          end
        end.
 
 (* clause-update [t tv] [add ..] [rmv ..]; the literal lists as typed (non-empty, no 0) *)
-Definition clause_update (d : dstate) (t : option Z) (add rmv : list (list Z)) : dstate * answer :=
+Definition clause_update (d : dstate) (t : option Z) (add rmv : list (list Z)) : dstate * cc_answer :=
   match t with
   | Some tv =>
     if 0 <? tv then
@@ -204,17 +204,17 @@ Definition clause_update (d : dstate) (t : option Z) (add rmv : list (list Z)) :
   | None => cu_continue d (live_n d) add rmv
   end.
 
-Definition undo_update (d : dstate) : dstate * answer :=
+Definition undo_update (d : dstate) : dstate * cc_answer :=
   let '(d', ok) := cc_undo d in (d', if ok then AOk else AErr E5_no_undo).
 
 (* save-cnf: write_cnf_to_file(&cached_state.clauses, total_features = number_of_variables, path) *)
-Definition save_cnf (d : dstate) : answer :=
+Definition save_cnf (d : dstate) : cc_answer :=
   match cached d with
   | None => AErr E5_no_save
-  | Some c => ASaved (print_cnf (live_n d) (clauses c))
+  | Some c => ASaved (print_cnf (live_n d) (cclauses c))
   end.
 
-Definition cc_step (d : dstate) (c : cmd) : dstate * answer :=
+Definition cc_step (d : dstate) (c : cc_cmd) : dstate * cc_answer :=
   match c with
   | CUpdate t add rmv => clause_update d t add rmv
   | CUndo => undo_update d
@@ -223,7 +223,7 @@ Definition cc_step (d : dstate) (c : cmd) : dstate * answer :=
 
 (* a history; it ends at the first panic (the state after a caught panic is what the panic
    left behind) *)
-Fixpoint cc_run (d : dstate) (cs : list cmd) : dstate * list answer :=
+Fixpoint cc_run (d : dstate) (cs : list cc_cmd) : dstate * list cc_answer :=
   match cs with
   | [] => (d, [])
   | c :: r =>
